@@ -104,6 +104,8 @@ var Profiles = map[string]func() Profile{
 			int(KAddBatch), 3, int(KRemoveBatch), 2, int(KRegObs), 5, int(KUnregObs), 3, int(KSetRelBatch), 4, int(KExchangeBatch), 2, int(KCopy), 1, int(KShrink), 1)
 		p.QuerySlots = 64
 		p.LeakPct = 35
+		p.RelObsPct = 30
+		p.RelBatchPct = 25
 		p.FilterSlots = 4
 		p.MaxAlive = 40
 		p.ObsSlots = 4
